@@ -26,7 +26,8 @@ RULE = (
     "designating target and roots for read_files (absolute / relative / bare name / no root / symlink / '..' / two roots in both "
     "orders / several bare names incl. the name of an inner directory in both orders / str vs Path) and 5 for read_namespace; cwd in {parent of the root, an unrelated directory, "
     "the directory above the parent of the root (relative targets with a multi-component prefix, the shape of the docstring's first example)}; plus 70 well- and "
-    "ill-formed file names. Non-trivial iff the namespace depth is >= 1 or the designation is not the absolute path; distinct by "
+    "ill-formed file names; call histories: every ordered pair (thorough: triple) of 8 calls that see one directory under three different roots in ONE process; a relative "
+    "target present under two same-named roots, every order of three roots, absolute and relative. Non-trivial iff the namespace depth is >= 1 or the designation is not the absolute path; distinct by "
     "canonical hash of the tuple"
 )
 ASSUMPTIONS = [
@@ -53,6 +54,7 @@ MUST_SUCCEED = {("abs-abs", "parent"), ("rel-rel", "parent"), ("rel-name", "pare
 def plan(tier):
     shards = [{"kind": "layout", "ns": ns} for ns in NS_PATHS]
     shards += [{"kind": "names", "part": p, "parts": 8} for p in range(8)]
+    shards += [{"kind": "histories"}, {"kind": "twin-roots"}]
     return shards
 
 
@@ -95,7 +97,28 @@ NAMES = [
 ]
 
 
+HIST_OPS = [
+    ("rn", "ws/outer", None), ("rn", "ws/outer/inner", None), ("rn", "ws/outer/inner/deep", None),
+    ("rf", "ws/outer/inner/X.1.0.dsdl", "ws/outer"), ("rf", "ws/outer/inner/X.1.0.dsdl", "ws/outer/inner"),
+    ("rf", "ws/outer/inner/deep/Y.1.0.dsdl", "ws/outer"), ("rf", "ws/outer/inner/deep/Y.1.0.dsdl", "ws/outer/inner"), ("rf", "ws/outer/inner/deep/Y.1.0.dsdl", "ws/outer/inner/deep"),
+]
+
+
 def cases(shard, tier):
+    if shard["kind"] == "histories":
+        n = len(HIST_OPS)
+        for i in range(n):
+            for j in range(n):
+                yield {"kind": "history", "ops": [i, j]}
+        if tier != "quick":
+            for t in itertools.product(range(n), repeat=3):
+                yield {"kind": "history", "ops": list(t)}
+        return
+    if shard["kind"] == "twin-roots":
+        for order in itertools.permutations(["p", "q", "r"]):
+            for spelling in ("abs", "rel"):
+                yield {"kind": "twin-roots", "order": list(order), "spelling": spelling}
+        return
     if shard["kind"] == "layout":
         for short, ver, port in itertools.product(SHORTS, VERSIONS, PORTS):
             if tier == "quick" and short == "Type_1" and ver != [1, 0]:
@@ -281,7 +304,81 @@ def check_name(case, R: engine.Acc):
             R.outcome("identity-ok")
 
 
+def check_history(case, R: engine.Acc):
+    """Several calls in ONE process that see the same directory under different roots: the identity is a function of the file's
+    path relative to the root designated in THIS call."""
+    base = ws.fresh()
+    try:
+        ws.write_tree(base, {"ws/outer/inner/X.1.0.dsdl": "uint8 x\n@sealed\n", "ws/outer/inner/deep/Y.1.0.dsdl": "uint16 y\n@sealed\n", "ws/outer/Z.1.0.dsdl": "@sealed\n"})
+        done = []
+        for i in case["ops"]:
+            kind, arg, root = HIST_OPS[i]
+            done.append(i)
+            try:
+                with engine.deadline(20):
+                    if kind == "rn":
+                        res = pydsdl.read_namespace(base / arg, [])
+                        rootdir = arg
+                        files = sorted(str(p.relative_to(base)) for p in (base / arg).rglob("*.dsdl"))
+                    else:
+                        res, _t = pydsdl.read_files([base / arg], [base / root], [])
+                        rootdir = root
+                        files = [arg]
+            except Exception as ex:  # noqa
+                R.violation("history-call-raised:%s" % type(ex).__name__, "every call of the history succeeds", {**case, "ops": done}, observed=repr(ex)[:300])
+                return
+            exp = []
+            for f in files:
+                relp = Path(f).relative_to(Path(rootdir).parent)
+                exp.append({"full_name": ".".join(list(relp.parent.parts) + [relp.name.split(".")[0]]), "version": [1, 0], "port": None, "source_file_path": f, "source_file_path_to_root": rootdir})
+            got = sorted((identity(t, base) for t in res), key=lambda d: d["source_file_path"])
+            exp = sorted(exp, key=lambda d: d["source_file_path"])
+            if got != exp:
+                R.outcome("identity-wrong")
+                R.violation("identity-depends-on-earlier-calls", "name and root are those encoded by the path relative to the root designated in this call, whatever was read before in the same process", {**case, "ops": done}, observed=got, expected=exp)
+                return
+        R.case(case, nontrivial=True, sample=(case["ops"] == [0, 1]))
+        R.outcome("history-ok")
+    finally:
+        ws.remove(base)
+
+
+def check_twin_roots(case, R: engine.Acc):
+    """A relative target that exists under several same-named roots: DSDLDefinition.from_first_in documents that the FIRST listed root
+    under which the file is found is used; the identity must point back to that file and that root."""
+    base = ws.fresh()
+    old = os.getcwd()
+    try:
+        ws.write_tree(base, {"p/rns/sub/T.1.0.dsdl": "uint8 p\n@sealed\n", "q/rns/sub/T.1.0.dsdl": "uint16 q\n@sealed\n", "r/rns/other/U.1.0.dsdl": "@sealed\n", "cwd/keep": ""})
+        os.chdir(base / "cwd")
+        mk = (lambda d: base / d / "rns") if case["spelling"] == "abs" else (lambda d: Path("..") / d / "rns")
+        roots = [mk(d) for d in case["order"]]
+        first = next(d for d in case["order"] if d in ("p", "q"))
+        exp = [{"full_name": "rns.sub.T", "version": [1, 0], "port": None, "source_file_path": "%s/rns/sub/T.1.0.dsdl" % first, "source_file_path_to_root": "%s/rns" % first}]
+        R.case(case, nontrivial=True, sample=(case["order"] == ["q", "p", "r"]))
+        try:
+            with engine.deadline(20):
+                res, _t = pydsdl.read_files([Path("rns/sub/T.1.0.dsdl")], roots, [])
+        except pydsdl.InvalidDefinitionError as ex:
+            R.outcome("rejected")  # rejecting the ambiguous designation is not a wrong identity
+            return
+        got = [identity(t, base) for t in res]
+        fields = [str(f) for f in res[0].fields] if res else []
+        if got != exp or fields != ["saturated uint%d %s" % (8 if first == "p" else 16, first)]:
+            R.outcome("identity-wrong")
+            R.violation("identity-differs:twin-roots", "a relative target found under several same-named roots is taken from the first listed one (from_first_in), and path, root and content belong together", case, observed=[got, fields], expected=exp)
+        else:
+            R.outcome("twin-roots-ok")
+    finally:
+        os.chdir(old)
+        ws.remove(base)
+
+
 def check_case(case, R):
+    if case["kind"] == "history":
+        return check_history(case, R)
+    if case["kind"] == "twin-roots":
+        return check_twin_roots(case, R)
     if case["kind"] == "name":
         check_name(case, R)
     else:
@@ -289,7 +386,7 @@ def check_case(case, R):
 
 
 def finish(tier, M):
-    need = ["identity-ok", "ill-formed-rejected"]
+    need = ["identity-ok", "ill-formed-rejected", "history-ok"]
     miss = [n for n in need if not M.hist.get(n)]
     if miss:
         raise engine.Vacuous("outcome classes not seen: %s" % miss)
